@@ -83,6 +83,8 @@ Lemma cs_recverr : cedge2_ok (cli s i) (LRecvErr, pc') = true -> lsem fixed (PCl
 Proof. intros EK L. simpl in L. inv_guard L G. pure_lbl. Qed.
 Lemma cs_recvperr : cedge2_ok (cli s i) (LRecvPerr, pc') = true -> lsem fixed (PCli i) LRecvPerr arg s = Some s1 -> inv2' (set_pc s1 i pc').
 Proof. intros EK L. simpl in L. inv_guard L G. pure_lbl. Qed.
+Lemma cs_openc : cedge2_ok (cli s i) (LOpenC, pc') = true -> lsem fixed (PCli i) LOpenC arg s = Some s1 -> inv2' (set_pc s1 i pc').
+Proof. intros EK L. simpl in L. inv_guard L G. pure_lbl. Qed.
 Lemma cs_seeclosed : cedge2_ok (cli s i) (LSeeClosed, pc') = true -> lsem fixed (PCli i) LSeeClosed arg s = Some s1 -> inv2' (set_pc s1 i pc').
 Proof. intros EK L. simpl in L. inv_guard L G. pure_lbl. Qed.
 
@@ -249,6 +251,7 @@ Proof.
   - eapply cs_trysend; eauto.
   - eapply cs_commitok; eauto.
   - eapply cs_commitfail; eauto.
+  - eapply cs_openc; eauto.
 Qed.
 
 Theorem inv2_step : forall s a s', inv1 s -> t_wf (tc s) = true -> inv2' s -> step fixed s a = Some s' -> inv2' s'.
